@@ -163,6 +163,10 @@ fn probe_nonowner(arg: u64, sim: &Sim, obs: &Obs) -> ProbeResult {
     let mut accounts: Vec<String> = names.users.clone();
     accounts.push(DEPLOYER.to_string());
     accounts.push(ADMINS[0].to_string());
+    // accounts with other roles in the system: a royalty payout address, the NFT minter, a bystander
+    accounts.push(crate::world::PAYOUTS[0].to_string());
+    accounts.push(crate::world::MINTER.to_string());
+    accounts.push(crate::world::BYSTANDER.to_string());
     let cap = if thorough() { 10 } else { 5 };
     let mut ls: Vec<&LRec> = obs.listings.iter().collect();
     rng.shuffle(&mut ls);
